@@ -902,6 +902,35 @@ func (f *FnEnc) baseEnv(st *State) map[string]string {
 				env[key] = f.e.reg.zeroOf(ct)
 			}
 		}
+		// heap-promoted named locals: name -> current content, name& -> the cell's reference
+		seen2 := map[string]int{}
+		var boxes []*ssa.Alloc
+		for c := range f.cellName2 {
+			boxes = append(boxes, c)
+		}
+		sort.Slice(boxes, func(i, j int) bool { return f.cellOrder(boxes[i]) < f.cellOrder(boxes[j]) })
+		for _, c := range boxes {
+			n := f.cellName2[c]
+			if n == "" {
+				continue
+			}
+			seen2[n]++
+			key := n
+			if seen2[n] > 1 {
+				key = fmt.Sprintf("%s#%d", n, seen2[n])
+			}
+			a, ok := f.addrs[c]
+			if !ok || a.Kind != akBox {
+				continue
+			}
+			env[key+"&"] = a.Ref
+			if _, isParam := f.params[n]; isParam {
+				key = n + "'"
+			}
+			if _, clash := env[key]; !clash {
+				env[key] = fmt.Sprintf("(select %s %s)", st.comps[a.Comp], a.Ref)
+			}
+		}
 		env["H"] = "@H"
 		env["W"] = st.comps["W"]
 	}
